@@ -15,6 +15,8 @@ def noTryE : Expr → Bool
   | .lt a b => noTryE a && noTryE b
   | .typeOf e => noTryE e
   | .letH _ _ e => noTryE e
+  | .letTemps _ es => noTryL es
+  | .letUnpack _ e => noTryE e
   | .seq a b => noTryE a && noTryE b
   | .emit e => noTryE e
   | .ite c t e => noTryE c && noTryE t && noTryE e
@@ -23,13 +25,14 @@ def noTryE : Expr → Bool
   | .ret e => noTryE e
   | .throw e => noTryE e
   | .tryC _ _ _ _ => false
-  | .matchE s arms => noTryE s && noTryA arms
+  | .matchE ss arms => noTryL ss && noTryA arms
 def noTryL : List Expr → Bool
   | [] => true
   | e :: es => noTryE e && noTryL es
 def noTryA : List Arm → Bool
   | [] => true
-  | .mk _ b :: r => noTryE b && noTryA r
+  | .mk _ none b :: r => noTryE b && noTryA r
+  | .mk _ (some g) b :: r => noTryE g && noTryE b && noTryA r
 end
 
 def noTryS : GStmt → Bool
@@ -46,27 +49,28 @@ def noTryF (F : Funs) : Bool := F.all fun fd => noTryB fd.body
 /-- the result is a failed assertion (the type error) -/
 def isFailRes (r : Res) : Prop := ∃ h t, r = .err (.type h t)
 
-/-- either no assertion failed, or the result is the failure -/
-def Surf (m : St → Res × St) : Prop := ∀ s, (m s).2.fails = s.fails ∨ isFailRes (m s).1
+/-- either no assertion failed (checks enabled), or the result is the failure. The computation is
+indexed by `checks` only so that the evaluator appears fully applied (as in `Good`). -/
+def Surf (m : Bool → St → Res × St) : Prop := ∀ s, (m true s).2.fails = s.fails ∨ isFailRes (m true s).1
 
-theorem surf_const (g : St → Res × St) (hg : ∀ s, (g s).2.fails = s.fails) : Surf g :=
+theorem surf_const (g : St → Res × St) (hg : ∀ s, (g s).2.fails = s.fails) : Surf (fun _ s => g s) :=
   fun s => Or.inl (hg s)
 
-theorem surf_ret (r : Res) : Surf (fun s => (r, s)) := surf_const _ (fun _ => rfl)
+theorem surf_ret (r : Res) : Surf (fun _ s => (r, s)) := surf_const _ (fun _ => rfl)
 
 theorem not_fail_ok (v : V) : ¬ isFailRes (.ok v) := by
   rintro ⟨h, t, e⟩; cases e
 
-theorem surf_andThen {m : St → Res × St} {k : V → St → Res × St} (hm : Surf m) (hk : ∀ v, Surf (k v)) :
-    Surf (fun s => andThen (m s) k) := by
+theorem surf_andThen {m : Bool → St → Res × St} {k : Bool → V → St → Res × St} (hm : Surf m)
+    (hk : ∀ v, Surf (fun c s => k c v s)) : Surf (fun c s => andThen (m c s) (k c)) := by
   intro s
   have h1 := hm s
-  show (andThen (m s) k).2.fails = s.fails ∨ isFailRes (andThen (m s) k).1
-  generalize m s = x at h1
+  show (andThen (m true s) (k true)).2.fails = s.fails ∨ isFailRes (andThen (m true s) (k true)).1
+  generalize m true s = x at h1
   obtain ⟨r, s1⟩ := x
   cases r with
   | ok v =>
-    show (k v s1).2.fails = s.fails ∨ isFailRes (k v s1).1
+    show (k true v s1).2.fails = s.fails ∨ isFailRes (k true v s1).1
     rcases h1 with h1 | h1
     · rcases hk v s1 with h2 | h2
       · exact Or.inl (by rw [h2]; exact h1)
@@ -76,18 +80,18 @@ theorem surf_andThen {m : St → Res × St} {k : V → St → Res × St} (hm : S
   | err e => exact h1
   | stuck c => exact h1
 
-theorem surf_pre {m : St → Res × St} (f : St → St) (hf : ∀ s, (f s).fails = s.fails) (hm : Surf m) :
-    Surf (fun s => m (f s)) := by
+theorem surf_pre {m : Bool → St → Res × St} (f : St → St) (hf : ∀ s, (f s).fails = s.fails) (hm : Surf m) :
+    Surf (fun c s => m c (f s)) := by
   intro s
   have h := hm (f s)
   rw [hf s] at h
   exact h
 
-theorem surf_restore_self {m : St → Res × St} (hm : Surf m) : Surf (fun s => restore s (m s)) := by
+theorem surf_restore_self {m : Bool → St → Res × St} (hm : Surf m) : Surf (fun c s => restore s (m c s)) := by
   intro s
   exact hm s
 
-theorem surf_assert (h : Option Hint) (v : V) : Surf (fun s => assertHint true h v s) := by
+theorem surf_assert (h : Option Hint) (v : V) : Surf (fun c s => assertHint c h v s) := by
   intro s
   cases h with
   | none => exact Or.inl rfl
@@ -97,15 +101,15 @@ theorem surf_assert (h : Option Hint) (v : V) : Surf (fun s => assertHint true h
     · simp [hc]
     · right; exact ⟨h, typeName v, by simp [hc]⟩
 
-theorem surf_assert_out (v : V) : Surf (fun s => assertHint true s.out v s) :=
+theorem surf_assert_out (v : V) : Surf (fun c s => assertHint c s.out v s) :=
   fun s => surf_assert s.out v s
 
-theorem surf_bindOne (b : Binder) (v : V) : Surf (fun s => bindOne true b v s) := by
+theorem surf_bindOne (b : Binder) (v : V) : Surf (fun c s => bindOne c b v s) := by
   unfold bindOne
   refine surf_pre (fun s => s.setOpt b.1 v) ?_ (surf_assert b.2 v)
   intro s; cases b.1 <;> rfl
 
-theorem surf_bindMany (bs : List Binder) : ∀ vs, Surf (fun s => bindMany true bs vs s) := by
+theorem surf_bindMany (bs : List Binder) : ∀ vs, Surf (fun c s => bindMany c bs vs s) := by
   induction bs with
   | nil => intro vs; exact surf_ret _
   | cons b bs ih =>
@@ -113,7 +117,7 @@ theorem surf_bindMany (bs : List Binder) : ∀ vs, Surf (fun s => bindMany true 
     simp only [bindMany]
     exact surf_andThen (surf_bindOne b _) (fun _ => ih _)
 
-theorem surf_bindLoop (bs : List Binder) (item : V) : Surf (fun s => bindLoop true bs item s) := by
+theorem surf_bindLoop (bs : List Binder) (item : V) : Surf (fun c s => bindLoop c bs item s) := by
   unfold bindLoop
   split
   · exact surf_ret _
@@ -122,26 +126,62 @@ theorem surf_bindLoop (bs : List Binder) (item : V) : Surf (fun s => bindLoop tr
     · exact surf_bindMany _ _
     · exact surf_ret _
 
+theorem surf_bindArg : ∀ k,
+    (∀ p v, Surf (fun c s => bindArg c k p v s)) ∧ (∀ ps vs, Surf (fun c s => bindArgs c k ps vs s)) := by
+  intro k
+  induction k with
+  | zero =>
+    exact ⟨fun p v => by simp only [bindArg]; exact surf_ret _, fun ps vs => by simp only [bindArgs]; exact surf_ret _⟩
+  | succ k ih =>
+    constructor
+    · intro p v
+      cases p with
+      | b x h => simp only [bindArg]; exact surf_bindOne _ _
+      | lit n => simp only [bindArg]; exact surf_ret _
+      | tup ps =>
+        simp only [bindArg]
+        split
+        · split
+          · exact ih.2 _ _
+          · exact surf_ret _
+        · exact surf_ret _
+    · intro ps vs
+      cases ps with
+      | nil => simp only [bindArgs]; exact surf_ret _
+      | cons p ps =>
+        simp only [bindArgs]
+        exact surf_andThen (ih.1 p _) (fun _ => ih.2 ps _)
+
 /-- continuation on every result that hands failures through unchanged -/
-theorem surf_bindR {m : St → Res × St} {k : Res → St → Res × St} (hm : Surf m)
-    (hk : ∀ r, ¬ isFailRes r → Surf (k r)) (hpass : ∀ r s, isFailRes r → k r s = (r, s)) :
-    Surf (fun s => bindR (m s) k) := by
+theorem surf_bindR {m : Bool → St → Res × St} {k : Bool → Res → St → Res × St} (hm : Surf m)
+    (hk : ∀ r, ¬ isFailRes r → Surf (fun c s => k c r s)) (hpass : ∀ r s, isFailRes r → k true r s = (r, s)) :
+    Surf (fun c s => bindR (m c s) (k c)) := by
   intro s
   simp only [bindR]
-  by_cases hf : isFailRes (m s).1
+  by_cases hf : isFailRes (m true s).1
   · rw [hpass _ _ hf]
     exact hm s
   · rcases hm s with h1 | h1
-    · rcases hk _ hf (m s).2 with h2 | h2
+    · rcases hk _ hf (m true s).2 with h2 | h2
       · exact Or.inl (by rw [h2, h1])
       · exact Or.inr h2
     · exact (hf h1).elim
+
+/-- a pure step that leaves `fails` alone, followed by a continuation -/
+theorem surf_bindPure {α : Type} (g : St → α × St) (hg : ∀ s, (g s).2.fails = s.fails)
+    {k : Bool → α → St → Res × St} (hk : ∀ a, Surf (fun c s => k c a s)) :
+    Surf (fun c s => bindR (g s) (k c)) := by
+  intro s
+  simp only [bindR]
+  have := hk (g s).1 (g s).2
+  rw [hg s] at this
+  exact this
 
 theorem finishCall_pass (out : Option Hint) (r : Res) (s : St) (h : isFailRes r) :
     finishCall true out r s = (r, s) := by
   obtain ⟨hh, t, e⟩ := h; subst e; rfl
 
-theorem surf_finishCall (out : Option Hint) (r : Res) : Surf (finishCall true out r) := by
+theorem surf_finishCall (out : Option Hint) (r : Res) : Surf (fun c s => finishCall c out r s) := by
   unfold finishCall
   split
   · exact surf_andThen (surf_assert _ _) (fun _ => surf_ret _)
@@ -159,28 +199,15 @@ theorem noTryS_get (ss : List GStmt) (h : ss.all noTryS = true) (pc : Nat) (st :
   rw [List.all_eq_true] at h
   exact h st (List.mem_of_getElem? hp)
 
-theorem selectArm_noTry (v : V) (arms : List Arm) (h : noTryA arms = true) :
-    ∀ s b s', selectArm v arms s = (some b, s') → noTryE b = true := by
-  induction arms with
-  | nil => intro s b s' e; simp [selectArm] at e
-  | cons a rest ih =>
-    intro s b s' e
-    cases a with
-    | mk p body =>
-      simp only [noTryA, Bool.and_eq_true] at h
-      simp only [selectArm] at e
-      split at e
-      · simp only [Prod.mk.injEq, Option.some.injEq] at e
-        rw [← e.1]; exact h.1
-      · exact ih h.2 _ _ _ e
-
 /-- the invariant for all five evaluator functions at fuel `n` (checks enabled, `try`-free code) -/
 structure SurfAt (F : Funs) (n : Nat) : Prop where
-  eval : ∀ e, noTryE e = true → Surf (eval true F n e)
-  args : ∀ es, noTryL es = true → Surf (evalArgs true F n es)
-  forItems : ∀ bs xs body last, noTryE body = true → Surf (forItems true F n bs xs body last)
-  forGen : ∀ bs i genv st pc body last, noTryE body = true → Surf (forGen true F n bs i genv st pc body last)
-  genNext : ∀ i st pc, Surf (genNext true F n i st pc)
+  eval : ∀ e, noTryE e = true → Surf (fun c s => eval c F n e s)
+  args : ∀ es, noTryL es = true → Surf (fun c s => evalArgs c F n es s)
+  forItems : ∀ bs xs body last, noTryE body = true → Surf (fun c s => forItems c F n bs xs body last s)
+  forGen : ∀ bs i genv st pc body last, noTryE body = true → Surf (fun c s => forGen c F n bs i genv st pc body last s)
+  genNext : ∀ i st pc, Surf (fun c s => genNext c F n i st pc s)
+  matchArms : ∀ vs arms, noTryA arms = true → Surf (fun c s => matchArms c F n vs arms s)
+  unpackGen : ∀ bs i genv st pc, Surf (fun c s => unpackGen c F n bs i genv st pc s)
 
 theorem surfAt_zero (F : Funs) : SurfAt F 0 := by
   constructor
@@ -189,9 +216,11 @@ theorem surfAt_zero (F : Funs) : SurfAt F 0 := by
   · intro bs xs body last _; simp only [forItems]; exact surf_ret _
   · intro bs i genv st pc body last _; simp only [forGen]; exact surf_ret _
   · intro i st pc; simp only [genNext]; exact surf_ret _
+  · intro vs arms _; simp only [matchArms]; exact surf_ret _
+  · intro bs i genv st pc; simp only [unpackGen]; exact surf_ret _
 
 theorem surf_eval_succ (F : Funs) (hF : noTryF F = true) (n : Nat) (ih : SurfAt F n) (e : Expr) (he : noTryE e = true) :
-    Surf (eval true F (n + 1) e) := by
+    Surf (fun c s => eval c F (n + 1) e s) := by
   cases e with
   | lit v => simp only [eval]; exact surf_ret _
   | var x =>
@@ -217,6 +246,24 @@ theorem surf_eval_succ (F : Funs) (hF : noTryF F = true) (n : Nat) (ih : SurfAt 
     simp only [eval]
     refine surf_andThen (ih.eval e he) (fun v => surf_andThen (surf_pre (fun s => s.setOpt x v) ?_ (surf_assert h v)) (fun _ => surf_ret _))
     intro s; cases x <;> rfl
+  | letTemps bs es =>
+    simp only [noTryE] at he
+    simp only [eval]
+    refine surf_andThen (ih.args es he) (fun r => ?_)
+    split
+    · split
+      · exact surf_ret _
+      · exact surf_andThen (surf_bindMany _ _) (fun _ => surf_ret _)
+    · exact surf_ret _
+  | letUnpack bs e =>
+    simp only [noTryE] at he
+    simp only [eval]
+    refine surf_andThen (ih.eval e he) (fun v => ?_)
+    split
+    · exact surf_andThen (ih.unpackGen _ _ _ _ _) (fun _ => surf_ret _)
+    · split
+      · exact surf_andThen (surf_bindMany _ _) (fun _ => surf_ret _)
+      · exact surf_ret _
   | seq a b =>
     simp only [noTryE, Bool.and_eq_true] at he
     simp only [eval]
@@ -254,7 +301,7 @@ theorem surf_eval_succ (F : Funs) (hF : noTryF F = true) (n : Nat) (ih : SurfAt 
         split
         · exact surf_ret _
         · apply surf_restore_self
-          refine surf_andThen (surf_pre _ (fun _ => rfl) (surf_bindMany _ _)) (fun _ => ?_)
+          refine surf_andThen (surf_pre _ (fun _ => rfl) ((surf_bindArg _).2 _ _)) (fun _ => ?_)
           exact surf_bindR (ih.eval _ hb) (fun r _ => surf_finishCall _ r) (fun r s h => finishCall_pass _ r s h)
       · exact surf_ret _
     · split
@@ -270,24 +317,13 @@ theorem surf_eval_succ (F : Funs) (hF : noTryF F = true) (n : Nat) (ih : SurfAt 
     simp only [eval]
     exact surf_andThen (ih.eval e he) (fun v => surf_ret _)
   | tryC body typed x final => simp [noTryE] at he
-  | matchE scrut arms =>
+  | matchE scruts arms =>
     simp only [noTryE, Bool.and_eq_true] at he
     simp only [eval]
-    refine surf_andThen (ih.eval scrut he.1) (fun v => ?_)
-    intro s
-    simp only [bindR]
-    have hsf := selectArm_fails v arms s
-    cases hsel : selectArm v arms s with
-    | mk sel s2 =>
-      rw [hsel] at hsf
-      cases sel with
-      | none => exact Or.inl hsf
-      | some b =>
-        have hb := selectArm_noTry v arms he.2 s b s2 hsel
-        have := ih.eval b hb s2
-        simp only at hsf ⊢
-        rw [hsf] at this
-        exact this
+    refine surf_andThen (ih.args scruts he.1) (fun r => ?_)
+    split
+    · exact ih.matchArms _ _ he.2
+    · exact surf_ret _
 
 theorem surfAt_succ (F : Funs) (hF : noTryF F = true) (n : Nat) (ih : SurfAt F n) : SurfAt F (n + 1) := by
   constructor
@@ -322,7 +358,7 @@ theorem surfAt_succ (F : Funs) (hF : noTryF F = true) (n : Nat) (ih : SurfAt F n
       refine surf_andThen ?_ (fun _ => ?_)
       · split
         · exact surf_ret _
-        · exact fun s => surf_pre (fun s' => { s' with env := [] }) (fun _ => rfl) (surf_bindMany _ (s.env.map (·.2))) s
+        · exact fun s => surf_pre (fun s' => { s' with env := [] }) (fun _ => rfl) ((surf_bindArg _).2 _ (s.env.map (·.2))) s
       · split
         · exact surf_ret _
         · next e hpc =>
@@ -337,6 +373,40 @@ theorem surfAt_succ (F : Funs) (hF : noTryF F = true) (n : Nat) (ih : SurfAt F n
             · exact surf_ret _
           · obtain ⟨hh, t, e⟩ := h; subst e; rfl
     · exact surf_ret _
+  · intro vs arms ha
+    cases arms with
+    | nil => simp only [matchArms]; exact surf_ret _
+    | cons arm rest =>
+      cases arm with
+      | mk alts guard body =>
+        simp only [matchArms]
+        refine surf_bindPure _ (armM_fails n alts vs) (fun m => ?_)
+        cases m with
+        | yes =>
+          cases guard with
+          | none =>
+            simp only [noTryA, Bool.and_eq_true] at ha
+            exact ih.eval body ha.1
+          | some g =>
+            simp only [noTryA, Bool.and_eq_true] at ha
+            refine surf_andThen (ih.eval g ha.1.1) (fun gv => ?_)
+            split
+            · exact ih.eval body ha.1.2
+            · exact ih.matchArms _ _ ha.2
+        | no =>
+          have har : noTryA rest = true := by
+            cases guard <;> simp only [noTryA, Bool.and_eq_true] at ha <;> exact ha.2
+          exact ih.matchArms _ _ har
+        | stuck => exact surf_ret _
+  · intro bs i genv st pc
+    cases bs with
+    | nil => simp only [unpackGen]; exact surf_ret _
+    | cons b bs =>
+      simp only [unpackGen]
+      refine surf_andThen (surf_restore_self (surf_pre _ (fun _ => rfl) (ih.genNext i st pc))) (fun r => ?_)
+      split
+      · exact surf_andThen (surf_bindOne b _) (fun _ => ih.unpackGen _ _ _ _ _)
+      · exact surf_bindMany _ _
 
 theorem surfAt (F : Funs) (hF : noTryF F = true) : ∀ n, SurfAt F n
   | 0 => surfAt_zero F
